@@ -36,6 +36,15 @@ func c03NewMessage(kind, uuid string) *message.Message {
 	panic(kind)
 }
 
+func c03Closed(ch <-chan struct{}) bool {
+	select {
+	case <-ch:
+		return true
+	default:
+		return false
+	}
+}
+
 func c03Do(m *message.Message, op string) bool {
 	switch op {
 	case "Ack":
@@ -93,6 +102,11 @@ func runC03(c *Ctx) error {
 			defer close(done)
 			p, v := Guarded(func() {
 				m := c03NewMessage(j.kind, fmt.Sprintf("r%d", r.ID))
+				// an observer took the two channels of a constructor-built message at the start and keeps looking at THOSE
+				var heldAck, heldNack <-chan struct{}
+				if j.kind == "new" {
+					heldAck, heldNack = m.Acked(), m.Nacked()
+				}
 				x := j.idx
 				settles := 0
 				for s := 0; s < N; s++ {
@@ -101,8 +115,27 @@ func runC03(c *Ctx) error {
 					if op == "Ack" || op == "Nack" {
 						settles++
 					}
-					res := c03Do(m, op)
+					var res bool
+					switch {
+					case heldAck != nil && op == "RdAck":
+						res = c03Closed(heldAck)
+					case heldAck != nil && op == "RdNack":
+						res = c03Closed(heldNack)
+					default:
+						res = c03Do(m, op)
+					}
 					r.Emit("op", "g", "g0", "op", op, "res", res)
+					if heldAck != nil && (op == "Ack" || op == "Nack") {
+						// other messages come and go meanwhile, settled the other way: nothing to do with this one
+						for k := 0; k < 3; k++ {
+							o := message.NewMessage("other", nil)
+							if op == "Ack" {
+								o.Nack()
+							} else {
+								o.Ack()
+							}
+						}
+					}
 				}
 				r.NonTrivial = settles >= 2
 			})
